@@ -158,8 +158,8 @@ Definition exec (m : mode) (t : tid) (s : step) (st : state) : state :=
             let st1 := set_thr st j (t_store f l) in
             let k := target m st1 t in
             add_log (sync (sync st1 k l a) k l b) t [EvRes true]
-          else (* the failed call restores ctx and StateDB; the events of the flush stay *)
-            add_log (set_thr st j (t_log o (flush_evs (sdb o) (store o)))) t [EvRes false]
+          else (* the failed call restores ctx, StateDB and the event manager *)
+            add_log st t [EvRes false]
       end
   | SFee a b n =>
       if n <=? store me a then
